@@ -37,7 +37,7 @@ def cases(pattern):
     for d in sorted(glob.glob(os.path.join(VERIF, "seeded/*/"))):
         sid = os.path.basename(d.rstrip("/"))
         meta = json.load(open(os.path.join(d, "meta.json")))
-        out.append(("seed:" + sid, os.path.join(d, "patch.diff"), SEED_CHECKS.get(sid, [meta["property"]]), True))
+        out.append(("seed:" + sid, os.path.join(d, "patch.diff"), SEED_CHECKS.get(sid, meta.get("checks") or [meta["property"]]), True))
     return [c for c in out if pattern in c[0]]
 
 
